@@ -64,3 +64,12 @@ Proof.
   exists 4294967000, 10, 4294967290, 3. repeat split; vm_compute; congruence.
 Qed.
 Print Assumptions C06_ring_window_wrap_refuted.
+
+(* why C06_tune_valid excludes a population of exactly 1: min_individuals can
+   then only be 1 (rejected) or exceed the population *)
+Theorem C06_tune_valid_population_one_refuted : forall ln cube tid, exists k terms e,
+  user_wf e = true /\ is_valid false e = true /\ is_valid true (tune_rec ln cube tid k terms e) = false.
+Proof.
+  intros ln cube tid. exists (KSearch TStd), 3, (blank_with 1 0 0 0). repeat split; reflexivity.
+Qed.
+Print Assumptions C06_tune_valid_population_one_refuted.
